@@ -90,6 +90,15 @@ def run_task(task, acc):
     global FULL4
     if task[0] == "long":
         def gen():
+            for rho in (alpha.debruijn(RHO, 4), alpha.xl(RHO)):
+              n = len(rho)
+              down = [10.0 + i for i in range(n)]
+              updown = [10.0 + (i if i < n // 2 else n - i) for i in range(n)]
+              for z in ((down, updown) if n > 1000 else ()):
+                for s, f in ((None, -1.0), (-0.5, -1.0), (0.0, None)):
+                    yield dict(fn="density", rho=list(rho), z=z, suspect=s, fail=f)
+            yield dict(fn="pressure", p=[float(v) + 0.5 * i for i, v in enumerate(alpha.xl((0.0, 1.0, 2.0, 3.0)))])
+            yield dict(fn="pressure", p=[float(v) - 0.5 * i for i, v in enumerate(alpha.xl((0.0, 1.0, 2.0, 3.0)))])
             rho = alpha.debruijn(RHO, 4)
             n = len(rho)
             down = [10.0 + i for i in range(n)]
